@@ -17,6 +17,8 @@ func init() { Registry["C12"] = checkC12 }
 func checkC12(c *Ctx) {
 	c.R.NotCover = append(c.R.NotCover, "'at the latest once all earlier acks arrived' (queue behaviour over histories, C13)", "a second PINGREQ overwriting the single outstanding-ping slot", "pairwise distinctness of identifiers as a runtime fact (only the allocation discipline is checked)")
 	c.useRules(ruleP2, ruleP3, ruleP5, ruleP4)
+	c.useRules(ruleP9)
+	c.sessionQueuesWriteOnce()
 	r := c.Roles()
 	if !c.Need("message handler", r.Handler, "handler cases", r.Cases, "ring writer", r.RingWrite, "release loop", r.Release, "hand-over", r.HandOver) {
 		return
